@@ -123,7 +123,9 @@ LocsOf(k) == CASE k = "pub2" -> {"atRLock", "waitAck", "waitComp", "retryWaitCom
                [] k = "connect" -> {"waitConnack", "connectWrite"}
                [] k = "disconnect" -> {"atRLock", "handlerBusy", "fromHandler"}
                [] k = "rconnect" -> {"dialFailing", "waitConnack"}
-               [] OTHER -> {"loopDialing", "loopConnected"}
+               \* connectCancelledAtActive: Disconnect after a Connect whose context was cancelled at the moment the first
+               \* handshake succeeded (the loop must not wait for a Connect that has already returned: seeded change c11i)
+               [] OTHER -> {"loopDialing", "loopConnected", "connectCancelledAtActive"}
 Causes == {"ctxCancel", "ctxDeadline", "localClose", "peerClose", "malformed", "deadTransport", "otherDisconnect",
            "closeAfterFailedDisconnect", "closeAfterStuckDisconnect"}
 Applicable(k, l, cause) ==
